@@ -160,6 +160,18 @@ func oneRun(r *rep.Report, spec runSpec) {
 		e.Ret = l.now()
 		l.add(e)
 	}
+	// bctl: the same commands sent through the broadcaster (every cron of a process hears them)
+	bctl := func(what string) {
+		e := ev{T: what, Call: l.now()}
+		switch what {
+		case "suspend":
+			bc.Suspend()
+		case "resume":
+			bc.Resume()
+		}
+		e.Ret = l.now()
+		l.add(e)
+	}
 	ms := func(n int) time.Duration { return time.Duration(n) * time.Millisecond }
 	var burstFires [7]int64
 	canaryOK := func() bool {
@@ -195,6 +207,33 @@ func oneRun(r *rep.Report, spec runSpec) {
 		time.Sleep(ms(300))
 		ctl("resume")
 		quiet(ms(2200))
+	case "broadcast-suspend-resume-back-to-back":
+		// a pending job, then Suspend and Resume through the broadcaster without a gap (the loop may see
+		// one closed channel or two): nothing is suspended afterwards, both jobs fire
+		add("j0", ms(300+rng.Intn(200)))
+		time.Sleep(ms(rng.Intn(40)))
+		bctl("suspend")
+		bctl("resume")
+		time.Sleep(ms(rng.Intn(40)))
+		add("j1", ms(700))
+		quiet(ms(2800))
+	case "broadcast-double-suspend":
+		// Suspend twice, then Resume once: the broadcaster says "not suspended", pending jobs fire
+		add("j0", ms(400+rng.Intn(200)))
+		bctl("suspend")
+		time.Sleep(ms(20 + rng.Intn(40)))
+		bctl("suspend")
+		time.Sleep(ms(20 + rng.Intn(40)))
+		bctl("resume")
+		quiet(ms(2800))
+	case "broadcast-resume-suspend-resume":
+		bctl("resume")
+		time.Sleep(ms(10 + rng.Intn(30)))
+		add("j0", ms(500))
+		bctl("suspend")
+		time.Sleep(ms(100))
+		bctl("resume")
+		quiet(ms(2800))
 	case "pause":
 		add("j0", ms(100))
 		ctl("pause")
@@ -524,7 +563,9 @@ func check(r *rep.Report, spec runSpec, evs []ev, end int64, canaryLate time.Dur
 				r.Violate("", "a job fired that was never added", wit)
 			}
 		case "suspend":
-			susStart = e.Call
+			if susStart < 0 {
+				susStart = e.Call
+			}
 		case "resume":
 			if susStart >= 0 {
 				windows = append(windows, [2]int64{susStart, e.Ret})
@@ -621,6 +662,24 @@ func check(r *rep.Report, spec runSpec, evs []ev, end int64, canaryLate time.Dur
 			}
 			r.Violate(stallKey(evs, a), fmt.Sprintf("a one-shot job has not fired %.0f ms after it was due (the loop is not suspended or paused)", float64(end-latest)/1e6), lw)
 		}
+		// suspension only delays: in the runs that use nothing but the broadcaster (no pauses queued behind
+		// one another, no local commands) a job whose life overlaps a suspension fires within the grace
+		// period after the later of its due time and the end of the last suspension
+		if strings.HasPrefix(spec.Pattern, "broadcast-") && len(lf.fires) == 0 && susStart < 0 {
+			l2 := latest
+			for _, w := range windows {
+				if w[1] > l2 {
+					l2 = w[1]
+				}
+			}
+			if l2+grace < end && inWindow(a.Call, latest+grace) {
+				if canaryLate > 500*time.Millisecond {
+					r.Inconclusive("canary late")
+					continue
+				}
+				r.Violate("", fmt.Sprintf("a one-shot job has not fired %.0f ms after it was due and the broadcaster's last Resume had returned (the broadcaster is not suspended)", float64(end-l2)/1e6), lw)
+			}
+		}
 	}
 	if r.WantSample() {
 		r.Sample(rep.J{"run": spec, "events": len(evs), "log_head": evs[:minInt(10, len(evs))]})
@@ -642,7 +701,7 @@ func main() {
 	e := rep.GetEnv()
 	r := rep.New(e)
 	r.Note("hooks_compiled_in", hook.Enabled())
-	patterns := []string{"rem-head-then-quiet", "replace-head-later", "add-earlier-than-head", "add-during-suspend", "pause", "rem-recurring-during-run", "replace-recurring-during-run", "replace-recurring-both-running", "rem-readd-recurring-both-running", "recurring-callback-error", "command-burst", "reversed-range-schedule", "recurring-at-the-limit", "no-occurrence-schedule", "concurrent-adds-one-id", "recurring", "random", "random", "random"}
+	patterns := []string{"rem-head-then-quiet", "replace-head-later", "add-earlier-than-head", "add-during-suspend", "broadcast-suspend-resume-back-to-back", "broadcast-double-suspend", "broadcast-resume-suspend-resume", "pause", "rem-recurring-during-run", "replace-recurring-during-run", "replace-recurring-both-running", "rem-readd-recurring-both-running", "recurring-callback-error", "command-burst", "reversed-range-schedule", "recurring-at-the-limit", "no-occurrence-schedule", "concurrent-adds-one-id", "recurring", "random", "random", "random"}
 	rounds := e.Pick(1, 4)
 	var wg sync.WaitGroup
 	for round := 0; round < rounds; round++ {
